@@ -81,7 +81,7 @@ EffOut(o) == IF o.op = "sub" /\ o.x \in {"ok", "iok"} THEN "msa" ELSE o.o
 IsAdd(o) == o.op \in {"node", "sub", "pass", "edge", "branch", "static"}
 \* workflow front end: x of an edge says how the input was declared -- "fm"/"fm2" AddInput with a field mapping (to key k / k2),
 \* "dfm"/"dfm2" the same WithNoDirectDependency (data only), "c" AddDependency (control only); op "static" = SetStaticValue(k, path x, value e)
-IsFM(x) == x \in {"fm", "fm2", "dfm", "dfm2"}
+IsFM(x) == x \in {"fm", "fm2", "dfm", "dfm2", "fmr"}      \* fmr: key k mapped to FIELD K of a struct-typed target (rec)
 HasCtrl(o) == o.x \notin {"dfm", "dfm2"}
 HasData(o) == o.x # "c"
 
